@@ -60,8 +60,13 @@ def main(args, tier, seed):
         repo = os.path.join(root, "repo")
         scratch_ev = os.path.join(root, "evidence")
         os.makedirs(scratch_ev)
-        shutil.copytree(os.environ.get("CV_SELFTEST_BASE", "/repo"), repo, symlinks=True,
-                        ignore=shutil.ignore_patterns("target", ".git"))
+        # the committed state of /repo (HEAD), independent of whatever is applied to its working tree right now
+        os.makedirs(repo)
+        ar = subprocess.Popen(["git", "-C", os.environ.get("CV_SELFTEST_BASE", "/repo"), "archive", "HEAD"], stdout=subprocess.PIPE)
+        subprocess.run(["tar", "-x", "-C", repo], stdin=ar.stdout, check=True)
+        ar.wait()
+        if os.path.exists("/repo/Cargo.lock") and not os.path.exists(os.path.join(repo, "Cargo.lock")):
+            shutil.copy("/repo/Cargo.lock", os.path.join(repo, "Cargo.lock"))
         try:
             err = apply_edits(repo, m["edits"])
             if err:
